@@ -444,11 +444,88 @@ fn check_medium(case: &Case, p: &mut Probe) -> Check {
     Ok(())
 }
 
+/// incidence matrix of the projective plane over GF(q), q prime: q^2 + q + 1 points and lines,
+/// q + 1 ones per row and column, girth 6 with the fewest nodes possible (a Moore graph)
+fn projective_plane(q: usize) -> Mat {
+    let mut pts: Vec<[usize; 3]> = Vec::new();
+    for x in 0..q {
+        for y in 0..q {
+            pts.push([x, y, 1]);
+        }
+    }
+    for x in 0..q {
+        pts.push([x, 1, 0]);
+    }
+    pts.push([1, 0, 0]);
+    let n = pts.len();
+    let mut m = Mat::new(n, n);
+    for (i, l) in pts.iter().enumerate() {
+        for (j, p) in pts.iter().enumerate() {
+            if (l[0] * p[0] + l[1] * p[1] + l[2] * p[2]) % q == 0 {
+                m.ones.push((i, j));
+            }
+        }
+    }
+    m
+}
+
+/// the generalised quadrangle GQ(2,2): rows = the 15 perfect matchings of K6, columns = its 15
+/// edges; 3 ones per row and column, girth 8 with the fewest nodes possible
+fn gq22() -> Mat {
+    let mut edges: Vec<(usize, usize)> = Vec::new();
+    for a in 0..6 {
+        for b in a + 1..6 {
+            edges.push((a, b));
+        }
+    }
+    let mut matchings: Vec<[(usize, usize); 3]> = Vec::new();
+    for b in 1..6 {
+        let rest: Vec<usize> = (1..6).filter(|&x| x != b).collect();
+        for t in 1..4 {
+            let others: Vec<usize> = (1..4).filter(|&x| x != t).collect();
+            matchings.push([(0, b), (rest[0], rest[t]), (rest[others[0]], rest[others[1]])]);
+        }
+    }
+    let mut m = Mat::new(15, 15);
+    for (i, mt) in matchings.iter().enumerate() {
+        for e in mt {
+            let e = (e.0.min(e.1), e.0.max(e.1));
+            m.ones.push((i, edges.iter().position(|x| *x == e).unwrap()));
+        }
+    }
+    m
+}
+
 fn regression(_t: Tier) -> Vec<Case> {
     // D6: a 4-cycle with a pendant path
     let mut h = Mat::new(4, 4);
     h.ones = vec![(0, 0), (0, 1), (1, 0), (1, 1), (1, 2), (2, 2), (2, 3), (3, 3)];
-    vec![Case { h, class: "pendant-path".into() }, Case { h: Mat::new(2, 3), class: "empty".into() }]
+    let mut v = vec![Case { h, class: "pendant-path".into() }, Case { h: Mat::new(2, 3), class: "empty".into() }];
+    // extremal graphs: the most edges a given girth allows (any bound derived from counting nodes or
+    // edges is attained exactly), and complete bipartite graphs (girth 4 at any density)
+    for q in [2usize, 3, 5] {
+        v.push(Case { h: projective_plane(q), class: format!("projective-plane-{q}") });
+    }
+    v.push(Case { h: gq22(), class: "generalised-quadrangle-2-2".into() });
+    for (a, b) in [(2usize, 2usize), (3, 3), (3, 7), (6, 6)] {
+        let mut k = Mat::new(a, b);
+        for i in 0..a {
+            for j in 0..b {
+                k.ones.push((i, j));
+            }
+        }
+        v.push(Case { h: k, class: format!("complete-bipartite-{a}-{b}") });
+    }
+    // a single long cycle: 2k nodes, girth 2k
+    for k in [2usize, 3, 8, 11] {
+        let mut c = Mat::new(k, k);
+        for i in 0..k {
+            c.ones.push((i, i));
+            c.ones.push((i, (i + 1) % k));
+        }
+        v.push(Case { h: c, class: format!("cycle-{}", 2 * k) });
+    }
+    v
 }
 
 /// fuzz-target body: a byte tape decoded into a matrix (all roots, all bounds)
@@ -465,7 +542,7 @@ pub fn property() -> Property {
         subs: vec![
             Box::new(EnumSub {
                 name: "regression",
-                rule: "fixed: 4-cycle with a pendant path (every root, every bound), empty graph",
+                rule: "fixed: 4-cycle with a pendant path, empty graph, extremal graphs (incidence matrices of the projective planes of order 2, 3, 5: girth 6; the generalised quadrangle GQ(2,2): girth 8; complete bipartite graphs; single cycles of length 4, 6, 16, 22): every root, every bound",
                 cases: regression,
                 check,
                 exhaustive: false,
